@@ -142,17 +142,19 @@ Qed.
 Lemma option_eqb_Z_refl (o : option Z) : option_eqb Z.eqb o o = true.
 Proof. destruct o; simpl; [apply Z.eqb_refl|reflexivity]. Qed.
 
+(* the CURRENT source (repair 1c81f78b): re-order first, re-seed last = HeapOps.to_outgroup_position_r *)
 Theorem gen_to_outgroup_position og ub su h :
-  to_hres (Tree_to_outgroup_position HG og ub su h) = to_outgroup_position og ub su h.
+  to_hres (Tree_to_outgroup_position HG og ub su h) = to_outgroup_position_r og ub su h.
 Proof.
-  unfold Tree_to_outgroup_position, to_outgroup_position. hsimpx. cbv zeta.
+  unfold Tree_to_outgroup_position, to_outgroup_position_r. hsimpx. cbv zeta.
   destruct (parent h og) as [p|]; [|reflexivity].
-  destruct (reseed_at p ub false su h) as [h1|e h1|]; simpl; try reflexivity.
   rewrite gen_remove_plain_lift.
-  destruct (remove_child_plain p og h1) as [h2|e h2|]; simpl; try reflexivity.
+  destruct (remove_child_plain p og h) as [h1|e h1|]; simpl; try reflexivity.
   unfold Node__get_edge. hsimpx. cbv zeta.
-  destruct (gen_insert_child_eq p 0 og h2) as [v E]. simpl Z.of_nat in E. rewrite E.
-  rewrite elen_insert_child, option_eqb_Z_refl. reflexivity.
+  destruct (gen_insert_child_eq p 0 og h1) as [v E]. simpl Z.of_nat in E. rewrite E.
+  rewrite elen_insert_child, option_eqb_Z_refl.
+  unfold Tree__get_seed_node. hsimpx. cbv zeta.
+  destruct (reseed_at p ub false su (insert_child p 0 og h1)) as [h2|e h2|]; reflexivity.
 Qed.
 
 (* ---------------------------------------------------------------- reroot_at_node / reroot_at_edge *)
